@@ -821,6 +821,76 @@ func abandonedThenNext(id string, seed uint64) runner.Result {
 	return res
 }
 
+// fullDuplex: one goroutine of the client sends, another receives (what a full-duplex application does),
+// and the handler answers before it reads. On a transport without buffering the sender is held up by a
+// handler that is not reading yet; the receiver must still obtain the answers, whose sends succeeded,
+// which is also what lets the handler go on to read. Client with manual or automatic flushing.
+func fullDuplex(id string, manual bool, seed uint64) runner.Result {
+	r := &payload.SplitMix{S: seed}
+	nAns := 2 + r.Intn(3)
+	nReq := 2 + r.Intn(3)
+	copts := drpcmanager.Options{WriterBufferSize: 64, Stream: drpcstream.Options{ManualFlush: manual}}
+	handler := rig.HandlerFunc(func(stream drpc.Stream, rpc string) error {
+		for i := 0; i < nAns; i++ {
+			out := payload.Make(5, 1, 0, uint32(i), 30)
+			if err := stream.MsgSend(&out, payload.Enc{}); err != nil {
+				return nil
+			}
+		}
+		for {
+			var m []byte
+			if err := stream.MsgRecv(&m, payload.Enc{}); err != nil {
+				return nil
+			}
+		}
+	})
+	rg := rig.New(rig.Config{Net: simnet.Opts{Cap: 0}, Client: copts}, handler)
+	defer rg.Teardown()
+	st, err := rg.Conn.NewStream(context.Background(), "/duplex", payload.Enc{})
+	if err != nil {
+		return runner.Inconcl(id, "NewStream: "+err.Error())
+	}
+	sender := rig.Go("sender", func() (interface{}, error) {
+		for i := 0; i < nReq; i++ {
+			m := payload.Make(5, 0, 0, uint32(i), 200+r.Intn(300)) // larger than the writer's buffer: written out as it is sent
+			if err := st.MsgSend(&m, payload.Enc{}); err != nil {
+				return nil, err
+			}
+		}
+		return nil, st.CloseSend()
+	})
+	// the receiver starts when the sender has come to rest (held up inside the transport by the handler
+	// that is not reading yet), so that the order of the two goroutines' first steps is the same in every run
+	census.Quiesce(rig.Watchdog)
+	var got []uint32
+	receiver := rig.Go("receiver", func() (interface{}, error) {
+		for {
+			var m []byte
+			if err := st.MsgRecv(&m, payload.Enc{}); err != nil {
+				return nil, err
+			}
+			if h, perr := payload.Parse(m); perr == nil {
+				got = append(got, h.Seq)
+			}
+		}
+	})
+	_, snap := census.Quiesce(rig.Watchdog)
+	desc := fmt.Sprintf("full-duplex client manual-flush=%v on a transport without buffering: handler sends %d answers, then reads; client sender sends %d messages and half-closes while the client receiver receives", manual, nAns, nReq)
+	if !sender.Returned() || !receiver.Returned() {
+		key := "delivery:full-duplex-receiver-does-not-obtain-delivered-answers"
+		if manual {
+			key += " manual-flush=true"
+		}
+		return runner.Violation(id, key, desc+fmt.Sprintf("\nat quiescence the sender returned=%v, the receiver returned=%v and has obtained %d of %d answers although the handler's sends of the missing ones had succeeded or only wait for the receiver\n", sender.Returned(), receiver.Returned(), len(got), nAns)+census.Dump(census.InDRPC(snap)))
+	}
+	if len(got) != nAns {
+		return runner.Violation(id, "delivery:full-duplex-answers-missing", fmt.Sprintf("%s\nthe receiver obtained %v", desc, got))
+	}
+	res := runner.Hold(id, desc, true)
+	res.Events = int64(nAns + nReq)
+	return res
+}
+
 func describeScript(s *prog.Script) string {
 	return "client=[" + actsString(s.Client) + "] handler=[" + actsString(s.Handler) + "]"
 }
@@ -831,6 +901,13 @@ func gen(tier string, seed uint64) []runner.Scenario {
 		n = 3000
 	}
 	var out []runner.Scenario
+	for i := 0; i < n/6; i++ {
+		for _, manual := range []bool{false, true} {
+			i, manual := i, manual
+			id := fmt.Sprintf("full-duplex/manual=%v/%d", manual, i)
+			out = append(out, runner.Scenario{ID: id, Run: func() runner.Result { return fullDuplex(id, manual, payload.Hash(seed, 0xC01D, uint64(i))) }})
+		}
+	}
 	for i := 0; i < n/2; i++ {
 		i := i
 		id := fmt.Sprintf("abandoned-then-next/%d", i)
